@@ -1,6 +1,6 @@
 (* C11 — Step matching and dispatch: full-text match, right definition, right arguments.
    Statements only; proofs are in theories/StepMatchProofs.v. *)
-From BV Require Import Base UStr StepMatch StepMatchProofs Regex RegexProofs.
+From BV Require Import Base UStr StepMatch StepMatchProofs Regex RegexProofs Cuke CukeProofs.
 
 (* A successful match splits the text into the pattern's literals and field pieces - every literal verbatim
    (case-sensitively), every field piece in its field's language -, with nothing left over when the pattern is anchored
@@ -161,3 +161,32 @@ Example a_small_registry :
      OLookup (Bound 1 (Matched [mkArg 7 9 [49; 50]%N (XInt 12) (Some [110%N]); mkArg 14 17 [120; 32; 121]%N (XText [120; 32; 121]%N) (Some [119%N])]));
      OLookup (Bound 0 (Matched [mkArg 0 17 text (XText text) None]))].
 Proof. vm_compute. repeat split; reflexivity. Qed.
+
+(* ---- the cucumber-expression matcher (Cuke.v: literal text, optional text, alternative words, the int / word /
+   anonymous parameters): the same clauses ---- *)
+Theorem a_cucumber_expression_binds_only_complete_texts :
+  forall p text args, cuke_check_match p text = Some args -> lang (cuke_rx p) text.
+Proof. exact cuke_binds_only_complete_texts. Qed.
+Print Assumptions a_cucumber_expression_binds_only_complete_texts.
+
+Theorem a_cucumber_expression_yields_one_unnamed_argument_per_parameter :
+  forall p text args, cuke_check_match p text = Some args ->
+    length args = length (filter is_param p) /\ Forall (fun a => ra_name a = None) args.
+Proof. exact cuke_one_argument_per_parameter. Qed.
+Print Assumptions a_cucumber_expression_yields_one_unnamed_argument_per_parameter.
+
+(* an expression without parameters that matches does bind (with an empty argument list, which is not "no match") *)
+Theorem a_parameterless_cucumber_expression_binds_without_arguments :
+  forall p text, filter is_param p = [] ->
+    cuke_check_match p text = match rx_match true (cuke_rx p) text with Some _ => Some [] | None => None end.
+Proof. exact cuke_parameterless_expression_binds_without_arguments. Qed.
+Print Assumptions a_parameterless_cucumber_expression_binds_without_arguments.
+
+Theorem cucumber_expression_arguments_delimit_their_original_text :
+  forall p text args, cuke_check_match p text = Some args ->
+    Forall (fun a => match ra_span a with
+                     | None => ra_text a = None
+                     | Some (s, e) => s <= e <= length text /\ ra_text a = Some (firstn (e - s) (skipn s text))
+                     end) args.
+Proof. exact cuke_arguments_delimit_their_text. Qed.
+Print Assumptions cucumber_expression_arguments_delimit_their_original_text.
